@@ -11,7 +11,8 @@
 //!   INS = instruction bytes planted in a memory region at the exception's ip; REGS = amd64 registers of the
 //!   exception context (rax rcx rdx rbx rsp rbp rsi rdi r8..r15); MINFO = memory-info entries; CPUINFO / LSB =
 //!   text of the Linux cpuinfo / lsb-release streams; then LIMITS <hex|-> SOFT <hex|-> MAPS <hex|-> = text of the
-//!   /proc/self/limits, soft-errors (JSON) and /proc/self/maps streams.
+//!   /proc/self/limits, soft-errors (JSON) and /proc/self/maps streams; then RAW <k> {addr hex}*k = further raw memory regions,
+//!   HANDLES <n> {handle type-hex name-hex}*n = handle data stream, BOOTARGS <hex|-> = macOS boot-args stream.
 #[path = "c14.rs"]
 #[allow(dead_code)]
 mod c14;
@@ -357,6 +358,24 @@ fn run(line: &str) -> String {
             c.soft = unhex(x.str());
             c14::expect_tok(&mut x, "MAPS");
             c.maps = unhex(x.str());
+            if let Some(tok) = x.opt() {
+                assert!(tok == "RAW");
+                let k = x.usize();
+                for _ in 0..k {
+                    let addr = x.u64();
+                    c.raw_mems.push((addr, unhex(x.str())));
+                }
+                c14::expect_tok(&mut x, "HANDLES");
+                let nh = x.usize();
+                for _ in 0..nh {
+                    c.handles.push((x.u64(), utf8_arg(x.str()), utf8_arg(x.str())));
+                }
+                c14::expect_tok(&mut x, "BOOTARGS");
+                let t = x.str();
+                if t != "-" {
+                    c.bootargs = Some(utf8_arg(t));
+                }
+            }
         }
     }
     if !tn.is_empty() {
